@@ -805,7 +805,11 @@ func RunJavascript(ctx *Context, bs *Bindings, props map[string]interface{}, src
 			throwJavascript(call.Otto.Call("new Error", nil, err.Error()))
 		}
 		Log(DEBUG, ctx, "core.RunJavascript", "f", "match", "facti", logFacti(fact), "type", fmt.Sprintf("%T", fact))
-		bss, err := Matches(ctx, pat, fact)
+		// A pattern written in the script and data that came in
+		// as a binding (or the other way round) have to meet
+		// with the same types: [1] is []int64 when it comes
+		// from the script.
+		bss, err := Matches(ctx, jsonTypes(pat), jsonTypes(fact))
 		if err != nil {
 			Log(WARN, ctx, "core.RunJavascript", "f", "Matches", "warning", err)
 			throwJavascript(call.Otto.Call("new Error", nil, err.Error()))
